@@ -54,7 +54,8 @@ IdlePass == [ active |-> FALSE, actor |-> "", target |-> "", oid |-> "", ouid |-
               apiErr |-> FALSE, calls |-> 0, status |-> Absent, statusWritten |-> FALSE,
               finRemoved |-> FALSE,
               listed |-> <<>>, hasList |-> FALSE,       \* deployment controller: the ObjectSets it listed
-              clash |-> "" ]                             \* deployment controller: key whose Create hit AlreadyExists
+              clash |-> "",
+              gone404 |-> {} ]                           \* keys whose Delete was answered with NotFound                             \* deployment controller: key whose Create hit AlreadyExists
 
 Init == /\ l = 1
         /\ store = [ k \in Keys |-> Absent ]
@@ -92,6 +93,8 @@ ManagedKeys(pr) == UNION { PhaseWriteKeys(pr, j) : j \in 1..NPhases(pr) }
 ListedObjKeys(pr) == UNION { Range(PhaseObjKeys(pr, j)) : j \in 1..NPhases(pr) }
 
 PhaseOf(pr, k) == CHOOSE j \in 1..NPhases(pr) : k \in PhaseWriteKeys(pr, j)
+
+IsPhaseKey(pr, k) == \E j \in 1..NPhases(pr) : IsDelegated(pr, j) /\ k = pr.snap.cr.phases[j].phaseKey
 
 IsDelegatedKey(pr, k) == IsSetActor(pr.actor) /\ \E j \in 1..NPhases(pr) : IsDelegated(pr, j) /\ k \in Range(PhaseObjKeys(pr, j))
 
@@ -276,9 +279,12 @@ TrWrite ==
              ![p].writes = IF ~E.dry /\ Changed(E) /\ k # pr.target THEN Append(@, k) ELSE @,
              ![p].obs[k] = IF ~E.dry /\ ok /\ E.ev = "ApplyPatch" /\ pr.hasSnap /\ k \in ListedObjKeys(pr)
                               THEN ObsOf(pr, E.args.ret)
-                           ELSE IF ~E.dry /\ ok /\ E.ev = "Create" /\ pr.hasSnap /\ IsSetActor(pr.actor) /\ k \in ManagedKeys(pr)
-                              THEN RemoteObs(E.args.ret)
+                           ELSE IF ~E.dry /\ ok /\ E.ev \in {"Create", "MergePatch"} /\ pr.hasSnap /\ IsSetActor(pr.actor) /\ Rollout(pr)
+                                   /\ k \in ManagedKeys(pr) /\ IsPhaseKey(pr, k)
+                              THEN RemoteObs(E.args.ret)       \* the controller continues with the response of its own write
                            ELSE @,
+             \* a delete answered with NotFound confirms the absence like a read does
+             ![p].gone404 = IF ~E.dry /\ E.ev = "Delete" /\ E.res = "NotFound" THEN @ \cup {k} ELSE @,
              \* snapshot follows the responses of writes to the reconciled object (rv, finalizers)
              ![p].snap = IF k = pr.target /\ ok /\ pr.hasSnap /\ E.ev = "MergePatch"
                             THEN [ @ EXCEPT !.fin = E.post.fin, !.rv = E.post.rv ] ELSE @,
@@ -405,11 +411,13 @@ Inv_C03_FirstFailureNamed ==
 GoneFor(pr, k) ==
     \/ pr.unc[k].valid /\ (~pr.unc[k].o.exists \/ ~IsCtrl(pr, pr.unc[k].o))
     \/ k \in pr.dryseen /\ k \notin pr.dryok            \* skipped by teardown preflight
+    \/ k \in pr.gone404
 
 PhaseGone(pr, j) ==
     IF IsDelegated(pr, j) /\ IsSetActor(pr.actor)
       THEN LET pk == pr.snap.cr.phases[j].phaseKey IN
-           pr.unc[pk].valid /\ (~pr.unc[pk].o.exists \/ ~IsControllerL(pr.oid, pr.ouid, pr.unc[pk].o.owners))
+           \/ pr.unc[pk].valid /\ (~pr.unc[pk].o.exists \/ ~IsControllerL(pr.oid, pr.ouid, pr.unc[pk].o.owners))
+           \/ pk \in pr.gone404
       ELSE \A k \in Range(PhaseObjKeys(pr, j)) : GoneFor(pr, k)
 
 Inv_C04_ReverseOrder ==
@@ -736,6 +744,101 @@ Inv_C08_SharedObjectNotDeleted ==
                                    => /\ store[ok].cr.revision <= store[nk].cr.revision
                                       /\ ~(PR.snap.cr.revision < store[ok].cr.revision /\ store[ok].cr.revision < store[nk].cr.revision))
          => W.key \notin SetObjKeys(store[nk])
+
+---------------------------------------------------------------------------
+(* C10 convergence: the end state the spec tracked (from the events of the disturbed run) equals the end state of
+   the undisturbed reference run of the same scenario; the run ended in a fixpoint (two write-free fair rounds) *)
+
+OwnerSet(owners) == { [ id |-> owners[i].id, ctrl |-> owners[i].ctrl ] : i \in DOMAIN owners }
+CondSet(conds)   == { [ type |-> conds[i].type, status |-> conds[i].status, reason |-> conds[i].reason ] : i \in DOMAIN conds }
+
+\* what the statement lists: managed objects, their owners and revisions, which revisions are active or archived,
+\* condition statuses (uids, resourceVersions, generations and messages are not part of the outcome)
+Norm(o) ==
+    IF ~o.exists THEN [ exists |-> FALSE ]
+    ELSE [ exists |-> TRUE, kind |-> o.kind, owners |-> OwnerSet(o.owners), aowners |-> OwnerSet(o.aowners), rev |-> o.rev,
+           cache |-> o.cache, fin |-> Range(o.fin), deleting |-> o.deleting, spec |-> o.spec, probe |-> o.probe,
+           life |-> o.cr.lifecycle, revision |-> o.cr.revision, conds |-> CondSet(o.cr.conds),
+           cof |-> Range(o.cr.controllerOf), pbp |-> o.cr.pausedByParent, paused |-> o.cr.paused, previous |-> o.cr.previous ]
+
+QuiescedEv == lw.valid /\ W.ev = "Quiesced"
+
+Inv_C10_Quiescent == QuiescedEv => W.res = "ok"
+
+Inv_C10_SameOutcome ==
+    (QuiescedEv /\ W.args.hasRef)
+    => /\ \A i \in DOMAIN W.args.ref :
+             LET k == W.args.ref[i].key IN
+             Norm(IF k \in Keys THEN store[k] ELSE Absent) = Norm(W.args.ref[i].p)
+       /\ \A k \in Keys : store[k].exists => \E i \in DOMAIN W.args.ref : W.args.ref[i].key = k
+
+\* the harness's own end-state digest agrees with the store the spec reconstructed from the events
+Inv_C10_DigestMatchesStore ==
+    QuiescedEv => \A i \in DOMAIN W.args.state : W.args.state[i].key \in Keys /\ store[W.args.state[i].key] = W.args.state[i].p
+
+---------------------------------------------------------------------------
+(* C14 / C15 differentials: a sliced (C14) or delegated (C15) variant of a staged scenario reaches, after every
+   stage, the same cluster outcome as the inline / in-process base run. Controller identities are mapped
+   (ObjectSetPhase -> its ObjectSet); ObjectSlice / ObjectSetPhase objects themselves are the encoding and ignored. *)
+
+PKOKinds == {"ObjectSet", "ClusterObjectSet", "ObjectSetPhase", "ClusterObjectSetPhase", "ObjectSlice", "ClusterObjectSlice",
+             "ObjectDeployment", "ClusterObjectDeployment", "Package", "ClusterPackage", "ObjectTemplate", "ClusterObjectTemplate", "Namespace"}
+
+MapId(id, m) == IF id \in DOMAIN m THEN m[id] ELSE id
+
+NormObj(o, m) ==
+    IF ~o.exists THEN [ exists |-> FALSE ]
+    ELSE [ exists |-> TRUE, kind |-> o.kind, owners |-> { [ id |-> MapId(o.owners[i].id, m), ctrl |-> o.owners[i].ctrl ] : i \in DOMAIN o.owners },
+           rev |-> o.rev, cache |-> o.cache, fin |-> Range(o.fin), deleting |-> o.deleting, spec |-> o.spec, probe |-> o.probe ]
+
+NormSet(o) ==
+    IF ~o.exists THEN [ exists |-> FALSE ]
+    ELSE [ exists |-> TRUE, life |-> o.cr.lifecycle, revision |-> o.cr.revision, deleting |-> o.deleting,
+           conds |-> { [ type |-> o.cr.conds[i].type, status |-> o.cr.conds[i].status ] :
+                       i \in { j \in DOMAIN o.cr.conds : o.cr.conds[j].type \in {"Available", "Succeeded", "Archived", "Paused"} } },
+           cof |-> Range(o.cr.controllerOf) ]
+
+DiffEv(which) == QuiescedEv /\ "diff" \in DOMAIN W.args /\ W.args.diff = which
+
+DiffSame ==
+    /\ W.res = "ok"
+    /\ \A i \in DOMAIN W.args.diffRef :
+         LET k == W.args.diffRef[i].key
+             r == W.args.diffRef[i].p
+             o == IF k \in Keys THEN store[k] ELSE Absent IN
+         /\ r.kind \notin PKOKinds => NormObj(o, W.args.ownerMap) = NormObj(r, W.args.ownerMap)
+         /\ r.kind \in {"ObjectSet", "ClusterObjectSet"} => NormSet(o) = NormSet(r)
+    /\ \A k \in Keys : (store[k].exists /\ (store[k].kind \notin PKOKinds \/ store[k].kind \in {"ObjectSet", "ClusterObjectSet"}))
+                          => \E i \in DOMAIN W.args.diffRef : W.args.diffRef[i].key = k
+
+Inv_C14_SameAsInline == DiffEv("c14") => DiffSame
+Inv_C15_SameAsLocal  == DiffEv("c15") => DiffSame
+
+\* C15: the ObjectSet controller realises a classed phase through exactly the ObjectSetPhase named after it, creates it
+\* only when absent, with the phase's objects, the set's revision, previous revisions and paused state, and deletes it
+\* only during teardown
+Inv_C15_PhaseObjectFaithful ==
+    (CtlWrite /\ ~W.dry /\ IsSetActor(W.actor) /\ W.ev = "Create" /\ W.args.body.kind \in {"ObjectSetPhase", "ClusterObjectSetPhase"})
+    => \E j \in 1..NPhases(PR) :
+          /\ IsDelegated(PR, j) /\ W.key = PR.snap.cr.phases[j].phaseKey
+          /\ W.args.body.cr.phases[1].keys = PhaseObjKeys(PR, j)
+          /\ W.args.body.cr.phases[1].cps = PR.snap.cr.phases[j].cps
+          /\ W.args.body.cr.revision = PR.orev
+          /\ W.args.body.cr.previous = PR.snap.cr.previous
+          /\ W.args.body.cr.paused = SnapPaused(PR)
+          /\ W.args.body.cr.class = PR.snap.cr.phases[j].class
+          /\ IsControllerL(PR.oid, PR.ouid, W.args.body.owners)
+          /\ PR.reads[W.key].valid /\ ~PR.reads[W.key].o.exists
+
+Inv_C15_PhaseObjectLifetime ==
+    (CtlWrite /\ ~W.dry /\ IsSetActor(W.actor) /\ W.ev = "Delete" /\ W.pre.kind \in {"ObjectSetPhase", "ClusterObjectSetPhase"})
+    => Teardown(PR) /\ PR.unc[W.key].valid /\ IsControllerL(PR.oid, PR.ouid, PR.unc[W.key].o.owners)
+
+\* the ObjectSet propagates pause to the phase object (and nothing else of its spec)
+Inv_C15_PausePropagation ==
+    (CtlWrite /\ ~W.dry /\ IsSetActor(W.actor) /\ W.ev = "MergePatch" /\ W.pre.kind \in {"ObjectSetPhase", "ClusterObjectSetPhase"})
+    => /\ W.args.patch.setsPaused /\ W.args.patch.paused = SnapPaused(PR) /\ ~W.args.patch.other
+       /\ ~W.args.patch.setsOwners /\ ~W.args.patch.setsFinalizers
 
 Inv_C19_NoPanic == ~(lw.valid /\ W.ev \in {"Panic", "Timeout"})
 
